@@ -1228,7 +1228,7 @@ def magnitude_ok(w):
 
 class Pool:
     def __init__(self):
-        self.objs = []; self.mirrors = []; self.ro = []
+        self.objs = []; self.mirrors = []; self.ro = []; self.bufs = {}
 
     def add(self, obj, mirror):
         self.objs.append(obj); self.mirrors.append(norm(mirror)); self.ro.append(False)
@@ -1312,8 +1312,8 @@ def prop_history(ch, ctx):
             if z == 'x0' or (not must_raise and not magnitude_ok(want)):
                 ctx.cell('h:avoided:x/0-or-magnitude'); continue
             if pool.ro[ti]:
-                if tk in ('SA', 'SAb'):
-                    ctx.cell('h:avoided:read-only-array'); continue
+                if tk in ('SA', 'SAb') and avoided(ch, ctx, f'{t}.avoid_ro', 'readonly.i' + op, f'L={tk},flag=setflags'):
+                    continue
                 must_raise = True
             b0 = b.copy(); snap = snapshot(R)
             try:
@@ -1444,9 +1444,30 @@ def prop_history(ch, ctx):
                 k = (ti + 1) % len(pool.objs)
                 pool.objs[k] = r; pool.mirrors[k] = a.copy(); pool.ro[k] = False
         elif act in ('clear', 'remove_negatives', 'from_flat_array', 'copy_like', 'mix_from'):
-            if tk not in MUT_KINDS[act] or pool.ro[ti]:
-                # read-only bypass of these mutators is the stateless 'readonly' check's subject
+            if tk not in MUT_KINDS[act]:
                 ctx.cell('h:skip:not-applicable'); continue
+            if pool.ro[ti]:
+                # a named mutator on a read-only target must raise ValueError and change nothing
+                if avoided(ch, ctx, f'{t}.avoid_ro', 'readonly.' + act, f'L={tk},flag=setflags'): continue
+                site = 'h.readonly.' + act
+                probe = build({'k': tk, 's': tshape, 'v': [1.0] * a.size})
+                if act == 'clear': fn = lambda: T.clear()
+                elif act == 'remove_negatives': fn = lambda: T.remove_negatives()
+                elif act == 'from_flat_array': fn = lambda: T.from_flat_array(np.ones(a.size))
+                elif act == 'copy_like': fn = lambda: T.copy_like(probe)
+                else: fn = lambda: T.mix_from([probe])
+                try:
+                    fn()
+                except (Violation, HarnessError):
+                    raise
+                except ValueError:
+                    ctx.cell('h:ro-rejected')
+                except Exception as e:
+                    ctx.fail(f'{site}|{region}|exc:{type(e).__name__}', f'step {step}: {act} on a read-only {tk} raised {type(e).__name__}: {e}')
+                else:
+                    ctx.fail(f'{site}|{region}|accepted', f'step {step}: {act} on a read-only {tk} did not raise: {describe(T)}')
+                pool.check(ctx, site, region, ti)
+                continue
             args = {}
             if act == 'from_flat_array':
                 d = ch.choice(f'{t}.F.dtype', ['b'] if isb else ['f', 'f', 'i', 'b'])
@@ -1495,6 +1516,13 @@ def prop_history(ch, ctx):
             if d: ctx.fail(f'{site}|{region}|{d}', f'step {step}: {a.tolist()}[{ispec}]: got {describe(r)} want {a[ni].tolist()}')
             d = differs(T.to_array(), a, exact_shape=True)
             if d: ctx.fail(f'h.to_array|L={tk}|{d}', f'step {step}: to_array {T.to_array().tolist()} mirror {a.tolist()}')
+            # conversion into a caller-supplied buffer that still holds the previous conversion (or junk)
+            buf = pool.bufs.get(id(T))
+            if buf is None or buf.size != a.size: buf = np.full(a.size, 7.0)
+            out = T.to_flat_array(buf)
+            d = differs(out, a.flatten(), exact_shape=True)
+            if d: ctx.fail(f'h.to_flat_array(arr)|L={tk}|{d}', f'step {step}: to_flat_array(reused buffer) {np.asarray(out).tolist()} mirror {a.flatten().tolist()}')
+            pool.bufs[id(T)] = buf
         pool.check(ctx, site, region, ti)
     if any(mi.any() for mi in pool.mirrors) or any(dense_of(sp_).any() for sp_ in specs):
         nontriv(ctx, ('hist', tuple(sp_['k'] for sp_ in specs), tuple(tuple(sp_['s']) for sp_ in specs),
@@ -1720,18 +1748,19 @@ def _required():
     return c
 
 
-REQUIRED_CELLS = {'quick': _required(), 'thorough': _required()}
+# thorough: no required cells, so that a wall-guard truncation on a loaded machine stays "inconclusive", never exit 2
+REQUIRED_CELLS = {'quick': _required(), 'thorough': []}
 
 PROPS = {
     'exhaustive': (exhaustive, 1, 1, {'exhaustive': True}),
-    'binop': (prop_binop, 40000, 800000),
-    'getitem': (prop_getitem, 12000, 150000),
-    'setitem': (prop_setitem, 20000, 300000),
-    'reduce': (prop_reduce, 6000, 80000),
-    'construct': (prop_construct, 5000, 50000),
-    'observe': (prop_observe, 8000, 80000),
-    'mutate': (prop_mutate, 4000, 50000),
-    'readonly': (prop_readonly, 2000, 15000),
-    'history': (prop_history, 2500, 40000),
+    'binop': (prop_binop, 40000, 600000),
+    'getitem': (prop_getitem, 12000, 120000),
+    'setitem': (prop_setitem, 20000, 240000),
+    'reduce': (prop_reduce, 6000, 60000),
+    'construct': (prop_construct, 5000, 40000),
+    'observe': (prop_observe, 8000, 60000),
+    'mutate': (prop_mutate, 4000, 40000),
+    'readonly': (prop_readonly, 2000, 12000),
+    'history': (prop_history, 2500, 30000),
 }
 WALL = {'quick': 900, 'thorough': 3300}
